@@ -1,7 +1,35 @@
 From Coq Require Import ZArith List String.
 From FV Require Import Base.Ser Base.Res C04.Model.
-From FV Require C04.ModelTriplet.
+From FV Require C04.ModelTriplet C04.ModelMaxp.
+Open Scope Z_scope.
 Import ListNotations.
+Open Scope string_scope.
+(* a ModelMaxp.glyph tree in prefix form: 0 | 1 points contours | 2 n child_1 ... child_n *)
+Fixpoint de_glyph (fuel : nat) (l : list Z) : option (ModelMaxp.glyph * list Z) :=
+  match fuel with
+  | O => None
+  | S f =>
+    match l with
+    | 0 :: r => Some (ModelMaxp.GEmpty, r)
+    | 1 :: p :: k :: r => Some (ModelMaxp.GSimple p k, r)
+    | 2 :: n :: r =>
+      match (fix many (cnt : nat) (rest : list Z) : option (list ModelMaxp.glyph * list Z) :=
+               match cnt with
+               | O => Some ([], rest)
+               | S c => match de_glyph f rest with
+                        | Some (g, rest') => match many c rest' with Some (gs, rest'') => Some (g :: gs, rest'') | None => None end
+                        | None => None
+                        end
+               end) (Z.to_nat n) r with
+      | Some (gs, rest) => Some (ModelMaxp.GComposite gs, rest)
+      | None => None
+      end
+    | _ => None
+    end
+  end.
+Global Instance De_glyph : De ModelMaxp.glyph := fun l => de_glyph (S (List.length l)) l.
+Definition comp_values_top (g : ModelMaxp.glyph) : Z * Z * Z := ModelMaxp.comp_values g 1.
+
 Open Scope string_scope.
 Definition reg : registry := [
   ("calcChecksum", run1 calcChecksum);
@@ -9,6 +37,8 @@ Definition reg : registry := [
   ("maxPowerOfTwo", run1 maxPowerOfTwo);
   ("write_sfnt", run3 write_sfnt);
   ("encodeTriplets", run1 ModelTriplet.encodeTriplets);
-  ("decodeTriplets", run3 ModelTriplet.decodeTriplets)
+  ("decodeTriplets", run3 ModelTriplet.decodeTriplets);
+  ("compositeMaxp", run1 comp_values_top);
+  ("recalcComposites", run1 ModelMaxp.recalc_composites)
 ].
 Definition fv_entry := dispatch reg.
